@@ -239,7 +239,8 @@ fn rd_val(rd: &rustybgp_packet::rd::RouteDistinguisher) -> Val {
 }
 
 // nlri: [0,mask,addr4] [1,mask,addr16] [2,labels,mask,addr4] [3,labels,mask,addr16]
-//       [4,labels,rd8,mask,addr4] [5,labels,rd8,mask,addr16] [9] (family not modelled)
+//       [4,labels,rd8,mask,addr4] [5,labels,rd8,mask,addr16] [10,evpn encode()] [11,rtc encode()]
+//       [12,sr-policy encode()] [13,kind,rd,components] (flowspec) [14,mup encode()] [9] (family not modelled)
 fn nlri_val(n: &Nlri) -> Val {
     match n {
         Nlri::V4(p) => l(vec![Val::n(0u8), Val::n(p.mask), Val::from_bytes(&p.addr.octets())]),
@@ -270,7 +271,177 @@ fn nlri_val(n: &Nlri) -> Val {
             Val::n(x.prefix.mask),
             Val::from_bytes(&x.prefix.addr.octets()),
         ]),
+        Nlri::Evpn(x) => {
+            let mut b = Vec::new();
+            x.encode(&mut b);
+            l(vec![Val::n(10u8), Val::from_bytes(&b)])
+        }
+        Nlri::Rtc(x) => {
+            let mut b = Vec::new();
+            x.encode(&mut b);
+            l(vec![Val::n(11u8), Val::from_bytes(&b)])
+        }
+        Nlri::SrPolicy(x) => {
+            let mut b = Vec::new();
+            x.encode(&mut b);
+            l(vec![Val::n(12u8), Val::from_bytes(&b)])
+        }
+        Nlri::Ls(x) => ls_val(x),
+        Nlri::Mup(x) => {
+            let mut b = Vec::new();
+            x.encode(&mut b);
+            l(vec![Val::n(14u8), Val::from_bytes(&b)])
+        }
+        Nlri::FlowspecV4(x) => l(vec![
+            Val::n(13u8),
+            Val::n(0u8),
+            l(vec![]),
+            l(x.components.iter().map(fs4_val).collect()),
+        ]),
+        Nlri::FlowspecV6(x) => l(vec![
+            Val::n(13u8),
+            Val::n(1u8),
+            l(vec![]),
+            l(x.components.iter().map(fs6_val).collect()),
+        ]),
+        Nlri::FlowspecVpnV4(x) => l(vec![
+            Val::n(13u8),
+            Val::n(2u8),
+            rd_val(&x.rd),
+            l(x.components.iter().map(fs4_val).collect()),
+        ]),
+        Nlri::FlowspecVpnV6(x) => l(vec![
+            Val::n(13u8),
+            Val::n(3u8),
+            rd_val(&x.rd),
+            l(x.components.iter().map(fs6_val).collect()),
+        ]),
         _ => l(vec![Val::n(9u8)]),
+    }
+}
+
+// flowspec component: [type, 0, bits, offset, addr] for the two prefix types, [type, 1, [[op bits, value], ...]] otherwise
+fn ops_val(t: u8, ops: &[rustybgp_packet::flowspec::Op]) -> Val {
+    l(vec![
+        Val::n(t),
+        Val::n(1u8),
+        l(ops.iter().map(|o| l(vec![Val::n(o.bits), Val::n(o.value)])).collect()),
+    ])
+}
+
+fn fs4_val(c: &rustybgp_packet::flowspec::FlowspecV4Component) -> Val {
+    use rustybgp_packet::flowspec::FlowspecV4Component as C;
+    let p = |t: u8, n: &rustybgp_packet::bgp::Ipv4Net| {
+        l(vec![Val::n(t), Val::n(0u8), Val::n(n.mask), Val::n(0u8), Val::from_bytes(&n.addr.octets())])
+    };
+    match c {
+        C::DstPrefix(n) => p(1, n),
+        C::SrcPrefix(n) => p(2, n),
+        C::Protocol(o) => ops_val(3, o),
+        C::Port(o) => ops_val(4, o),
+        C::DstPort(o) => ops_val(5, o),
+        C::SrcPort(o) => ops_val(6, o),
+        C::IcmpType(o) => ops_val(7, o),
+        C::IcmpCode(o) => ops_val(8, o),
+        C::TcpFlags(o) => ops_val(9, o),
+        C::PacketLen(o) => ops_val(10, o),
+        C::Dscp(o) => ops_val(11, o),
+        C::Fragment(o) => ops_val(12, o),
+    }
+}
+
+fn fs6_val(c: &rustybgp_packet::flowspec::FlowspecV6Component) -> Val {
+    use rustybgp_packet::flowspec::FlowspecV6Component as C;
+    let p = |t: u8, n: &rustybgp_packet::bgp::Ipv6Net, off: u8| {
+        l(vec![Val::n(t), Val::n(0u8), Val::n(n.mask), Val::n(off), Val::from_bytes(&n.addr.octets())])
+    };
+    match c {
+        C::DstPrefix { prefix, offset } => p(1, prefix, *offset),
+        C::SrcPrefix { prefix, offset } => p(2, prefix, *offset),
+        C::NextHeader(o) => ops_val(3, o),
+        C::Port(o) => ops_val(4, o),
+        C::DstPort(o) => ops_val(5, o),
+        C::SrcPort(o) => ops_val(6, o),
+        C::IcmpType(o) => ops_val(7, o),
+        C::IcmpCode(o) => ops_val(8, o),
+        C::TcpFlags(o) => ops_val(9, o),
+        C::PacketLen(o) => ops_val(10, o),
+        C::Dscp(o) => ops_val(11, o),
+        C::Fragment(o) => ops_val(12, o),
+        C::FlowLabel(o) => ops_val(13, o),
+    }
+}
+
+// BGP-LS: [15, 0, type, body] unknown; [15, 1, proto, id, nd] node; [15, 2, proto, id, nd, nd, [tlv]] link;
+// [15, 3|4, proto, id, nd, [tlv]] prefix; [15, 6, proto, id, nd, [sid], [mt ids]] SRv6 SID.
+// nd = six options (asn, ls id, area, igp router id, bgp router id, confederation member);
+// tlv = [0, local, remote] | [1, type, addr] | [2, [ids]] | [4, ospf route type] | [5, prefix len, addr] | [3, type, value]
+fn ls_nd_val(n: &rustybgp_packet::ls::NodeDescriptor) -> Val {
+    l(vec![
+        Val::opt(n.asn.map(Val::n)),
+        Val::opt(n.bgp_ls_id.map(Val::n)),
+        Val::opt(n.ospf_area_id.map(Val::n)),
+        Val::opt(n.igp_router_id.as_ref().map(|b| Val::from_bytes(b))),
+        Val::opt(n.bgp_router_id.as_ref().map(|b| Val::from_bytes(b))),
+        Val::opt(n.bgp_confederation_member.map(Val::n)),
+    ])
+}
+
+fn ls_val(x: &rustybgp_packet::ls::BgpLsNlri) -> Val {
+    use rustybgp_packet::ls::{BgpLsNlri as L, LinkDescTlv as LT, PrefixDescTlv as PT};
+    let ids = |v: &Vec<u16>| l(v.iter().map(|i| Val::n(*i)).collect());
+    let lt = |t: &LT| match t {
+        LT::LinkId { local, remote } => l(vec![Val::n(0u8), Val::n(*local), Val::n(*remote)]),
+        LT::Ipv4InterfaceAddr(a) => l(vec![Val::n(1u8), Val::n(259u16), Val::from_bytes(a)]),
+        LT::Ipv4NeighborAddr(a) => l(vec![Val::n(1u8), Val::n(260u16), Val::from_bytes(a)]),
+        LT::Ipv6InterfaceAddr(a) => l(vec![Val::n(1u8), Val::n(261u16), Val::from_bytes(a)]),
+        LT::Ipv6NeighborAddr(a) => l(vec![Val::n(1u8), Val::n(262u16), Val::from_bytes(a)]),
+        LT::MultiTopoId(v) => l(vec![Val::n(2u8), ids(v)]),
+        LT::Unknown { tlv_type, value } => l(vec![Val::n(3u8), Val::n(*tlv_type), Val::from_bytes(value)]),
+    };
+    let pt = |t: &PT| match t {
+        PT::MultiTopoId(v) => l(vec![Val::n(2u8), ids(v)]),
+        PT::OspfRouteType(t) => l(vec![Val::n(4u8), Val::n(*t)]),
+        PT::IpReachability { prefix_len, addr } => l(vec![Val::n(5u8), Val::n(*prefix_len), Val::from_bytes(addr)]),
+        PT::Unknown { tlv_type, value } => l(vec![Val::n(3u8), Val::n(*tlv_type), Val::from_bytes(value)]),
+    };
+    match x {
+        L::Unknown { nlri_type, body } => l(vec![Val::n(15u8), Val::n(0u8), Val::n(*nlri_type), Val::from_bytes(body)]),
+        L::Node(n) => l(vec![Val::n(15u8), Val::n(1u8), Val::n(n.protocol_id), Val::n(n.identifier), ls_nd_val(&n.local_node)]),
+        L::Link(n) => l(vec![
+            Val::n(15u8),
+            Val::n(2u8),
+            Val::n(n.protocol_id),
+            Val::n(n.identifier),
+            ls_nd_val(&n.local_node),
+            ls_nd_val(&n.remote_node),
+            l(n.link_desc.iter().map(lt).collect()),
+        ]),
+        L::PrefixV4(n) => l(vec![
+            Val::n(15u8),
+            Val::n(3u8),
+            Val::n(n.protocol_id),
+            Val::n(n.identifier),
+            ls_nd_val(&n.local_node),
+            l(n.prefix_desc.iter().map(pt).collect()),
+        ]),
+        L::PrefixV6(n) => l(vec![
+            Val::n(15u8),
+            Val::n(4u8),
+            Val::n(n.protocol_id),
+            Val::n(n.identifier),
+            ls_nd_val(&n.local_node),
+            l(n.prefix_desc.iter().map(pt).collect()),
+        ]),
+        L::Srv6Sid(n) => l(vec![
+            Val::n(15u8),
+            Val::n(6u8),
+            Val::n(n.protocol_id),
+            Val::n(n.identifier),
+            ls_nd_val(&n.local_node),
+            l(n.sids.iter().map(|s| Val::from_bytes(s)).collect()),
+            ids(&n.multi_topo_ids),
+        ]),
     }
 }
 
